@@ -76,6 +76,7 @@ package consensus
 
 //@ func (*Proposer).Propose property C03
 //@   requires pwf(p) && hotstuff.genesisBlock != nil && proposal != nil && proposal.Block != nil
+//@   ensures [inv] pwf(p)
 //@   ensures [monotone] p.voter.lastVotedView >= old(p.voter.lastVotedView)
 //@   ensures [voted-this-view-or-not] p.voter.lastVotedView == old(p.voter.lastVotedView) || (p.voter.lastVotedView == proposal.Block.view && proposal.Block.view > old(p.voter.lastVotedView))
 //@   modifies p.voter.lastVotedView
